@@ -1315,7 +1315,17 @@ class CCodeGenerator:
                             esize = self.emit(ir.Const(esize, "esize", rhs.ty))
                             rhs = self.builder.emit_mul(rhs, esize, rhs.ty)
 
-                    value = self.builder.emit_binop(loaded, op, rhs, ir_typ)
+                    # The operation happens in the type of the right hand
+                    # side (the common type), see semantics.
+                    op_typ = rhs.ty
+                    if op_typ is not ir_typ and not expr.a.typ.is_pointer:
+                        loaded = self.builder.emit_cast(loaded, op_typ)
+                        value = self.builder.emit_binop(loaded, op, rhs, op_typ)
+                        value = self.builder.emit_cast(value, ir_typ)
+                    else:
+                        value = self.builder.emit_binop(
+                            loaded, op, rhs, ir_typ
+                        )
                 self._store_value(value, lhs)
         else:  # pragma: no cover
             raise NotImplementedError(str(expr.op))
